@@ -211,6 +211,35 @@ fn space_one_field(name: &'static str, vary_debug: bool, max_len: u32) -> Space 
     Space::new(name, len, run, desc)
 }
 
+/// Real-world decorations a name can carry after its last component: the Linux " (deleted)" mapping suffix,
+/// padding blanks / NULs, extensions the lookups rewrite. A lookup that normalises a name AFTER validating it
+/// shows here.
+const SUFFIXES: [&str; 8] = [" (deleted)", " ", "\0", " \0 ", ".pdb", ".sym", ".dll", " (deleted) "];
+fn space_suffixed(max_len: u32) -> Space {
+    let ids = id_menu();
+    let n_str = seq_count(8, max_len);
+    let radices = [n_str, SUFFIXES.len() as u64, 3, ids.len() as u64];
+    let len = product(&radices);
+    let decode = move |idx: u64| {
+        let d = unrank(idx, &radices);
+        let s = format!("{}{}", string_of(&seq_unrank(d[0], 8, max_len)), SUFFIXES[d[1] as usize]);
+        (s, d[2], d[3] as usize)
+    };
+    let run = move |idx: u64, l: &mut Local| {
+        let (s, which, i) = decode(idx);
+        let m = match which {
+            0 => simple_module(Some(s), "x.dll".into(), &ids[i]),
+            1 => simple_module(Some("x.pdb".into()), s, &ids[i]),
+            _ => simple_module(Some(s.clone()), s, &ids[i]),
+        };
+        exercise(l, &m, i, true);
+    };
+    Space::new("suffixed", len, run, move |idx| {
+        let (s, which, i) = decode(idx);
+        json!({"class": "suffixed", "name": s, "field": (["debug_file", "code_file", "both"][which as usize]), "id_menu_entry": i})
+    })
+}
+
 fn space_pairs(max_len: u32) -> Space {
     let ids = id_menu();
     let n_str = seq_count(8, max_len);
@@ -301,7 +330,7 @@ fn main() {
         ];
         def.extra.insert("max_name_length".into(), json!(n));
         def.extra.insert("alphabet".into(), json!(["a", ".", "/", "\\", ":", "C", "NUL", "é"]));
-        def.spaces = vec![space_one_field("debug_file", true, n), space_one_field("code_file", false, n), space_pairs(3), space_minidump_modules(3)];
+        def.spaces = vec![space_one_field("debug_file", true, n), space_one_field("code_file", false, n), space_pairs(3), space_suffixed(n - 1), space_minidump_modules(3)];
         def
     })
 }
